@@ -258,8 +258,57 @@ def closure_converts_arg(cb, field):
     return uses_arg and not arith
 
 
+def currency_codes(ctx, chk):
+    """"in the configured currency": the configuration names the currency by its ISO 4217 letters and the client sends the
+    numeric code - every (letters, number) pair of the conversion table agrees with the standard (spec/iso4217.json)."""
+    from mirlite import feasible_reach, callee
+    iso = {k: v for k, v in ctx.spec("iso4217.json").items() if not k.startswith("_")}
+    crate = ctx.crate("zvt_feig_terminal")
+    pairs = []
+    where = None
+    for b in list(crate.bodies.values()) + list(crate.absorbed.values()):
+        if "::config::" not in b.id or "::test" in b.id:
+            continue
+        eqs = []
+        for bb, t in b.calls():
+            if callee(t).endswith("cmp::PartialEq::eq") and len(t["args"]) == 2:
+                for a in t["args"]:
+                    k = a.get("k") if isinstance(a, dict) else None
+                    s = k.get("str") if isinstance(k, dict) else None
+                    if isinstance(s, str) and len(s) == 3 and s.isalpha() and s.isupper():
+                        eqs.append((bb, t, s))
+        if not eqs:
+            continue
+        where = b
+        cut = [bb for bb, _, _ in eqs]
+        for bb, t, s in eqs:
+            sw = b.blocks[t["to"]]["term"] if t.get("to") is not None else None
+            if sw is None or sw["t"] != "switch":
+                continue
+            true_t = sw["else"]
+            nums = set()
+            for i in feasible_reach(b, true_t, cut_blocks=[c for c in cut if c != bb]):
+                for st in b.blocks[i]["stmts"]:
+                    if st["s"] == "assign" and st["rv"]["r"] == "agg" and st["rv"].get("vname") == "Ok" and st["rv"]["ops"]:
+                        kk = st["rv"]["ops"][0].get("k")
+                        if isinstance(kk, dict) and isinstance(kk.get("v"), int):
+                            nums.add(kk["v"])
+            pairs.append((s, sorted(nums), b.blocks[bb]["term"].get("sp")))
+        break
+    if not chk.require(bool(pairs), "C08-b/currency-code", "iso_4217", "currency conversion table not found", "", nontrivial=False):
+        return
+    for s, nums, sp in pairs:
+        if s not in iso:
+            chk.note("currency %s (-> %s) is not in spec/iso4217.json: not checked" % (s, nums))
+            continue
+        chk.require(nums == [iso[s]], "C08-b/currency-code", "iso_4217 %s" % s,
+                    "currency %s is sent as %s, ISO 4217 says %d" % (s, nums, iso[s]), "%s = %d" % (s, iso[s]), sp)
+    chk.floor("currency table rows checked", len([p for p in pairs if p[0] in iso]), 3)
+
+
 def run(ctx, chk):
     _run_own(ctx, chk)
+    currency_codes(ctx, chk)
     # "... against the receipt number and reference token of that reservation": the receipt-number chain
     # (last announced receipt -> token map -> reversal request) is decided by the C07-c/d clauses
     import rules_c07
@@ -272,6 +321,11 @@ def run(ctx, chk):
                or "Reservation" in str(i))
     rules_c03._run_own(ctx, sub3)
     chk.floor("BCD field widths of the packets of this exchange (shared with C03-a)", sub3.count, 4)
+    # "against the receipt number ... of that reservation": the receipt number travels through its own codec (C17-d)
+    import rules_c17
+    sub17 = Sub(chk, "C08-c", lambda r: r.startswith("C17-d/"))
+    rules_c17.sentinel(sub17, [ctx.crate("zvt_builder"), ctx.crate("zvt")])
+    chk.floor("receipt-number codec obligations (shared with C17-d)", sub17.count, 3)
     sub = Sub(chk, "C08-c", lambda r: r in ("C07-c/value", "C07-c/insert", "C07-c/key", "C07-d/receipt", "C07-d/request"))
     rules_c07.begin(sub, crate)
     rules_c07.close(sub, crate, "commit_transaction")
